@@ -172,11 +172,17 @@ def insertId {α} (key : α → Id) (x : α) : List α → List α
   | y :: r => if key x ≤ key y then x :: y :: r else y :: insertId key x r
 def sortId {α} (key : α → Id) (l : List α) : List α := l.foldr (insertId key) []
 
+/-- the keyset predicate of a page token -/
+def afterPred {α} (key : α → Id) (after : Option Id) (r : α) : Bool :=
+  match after with
+  | some a => decide (a < key r)
+  | none => true
+
 /-- one page: rows satisfying `p` with id greater than `after`, in id order, at most `size`;
     the next token is the last id when the page is full -/
 def listPage {α} (key : α → Id) (p : α → Bool) (rows : List α) (after : Option Id) (size : Nat) :
     List α × Option Id :=
-  let sel := sortId key (rows.filter fun r => p r && (match after with | some a => decide (a < key r) | none => true))
+  let sel := sortId key (rows.filter fun r => p r && afterPred key after r)
   let page := sel.take size
   (page, if size ≤ page.length then page.getLast?.map key else none)
 
